@@ -63,6 +63,7 @@ class Module:
         self.contracts = []     # (file, fnpath, [lines])
         self.deasync = []       # files
         self.requires = []      # other module names
+        self.substs = []        # (file, from, to): Y1 textual substitutions besides async/await removal
         self.harnesses = []
         self.parse()
 
@@ -83,6 +84,9 @@ class Module:
                         k, v = x.split('=', 1); self.job[k] = v
                     else:
                         self.job[x] = True
+            m = re.match(r'//\s*@subst\s+(\S+)\s+"(.*?)"\s*=>\s*"(.*?)"\s*$', l)
+            if m:
+                self.substs.append((m.group(1), m.group(2), m.group(3)))
             m = re.match(r'//\s*@requires\s+(.*)$', l)
             if m:
                 self.requires += m.group(1).split()
@@ -121,8 +125,7 @@ class Module:
 
     def jobkey(self):
         j = self.job
-        return (j.get('pkg'), j.get('features', ''), bool(j.get('no-default-features')), j.get('zflags', ''),
-                ' '.join(sorted(self.deasync)))
+        return (j.get('pkg'), j.get('features', ''), bool(j.get('no-default-features')), j.get('zflags', ''))
 
 def load_modules():
     mods = []
@@ -193,6 +196,17 @@ def inject(w, modules):
             t = open(p).read()
             with open(p, 'w') as f: f.write(deasync_text(t))
             info['deasync'].append(file)
+    done_subst = set()
+    for mod in modules:
+        for (file, a, b) in mod.substs:
+            if (file, a, b) in done_subst: continue
+            done_subst.add((file, a, b))
+            p = os.path.join(w, file)
+            t = open(p).read()
+            if a not in t:
+                raise MachineryError('@subst anchor lost in %s: %r' % (file, a))
+            with open(p, 'w') as f: f.write(t.replace(a, b))
+            info.setdefault('subst', []).append('%s: %r => %r' % (file, a, b))
     for mod in modules:
         dst = os.path.join(vm, mod.name + '.rs')
         shutil.copy(mod.path, dst)
@@ -348,7 +362,7 @@ def trace_values(w, mod, h, timeout=900):
     # sliced out of the trace -- it can hold anything, so pad with zeros
     if all(len(v) == 1 for v in vals) and len(vals) in (160, 96):
         vals = (vals + [[0]] * 96) if len(vals) == 160 else ([[0]] * 160 + vals)
-    lines = ['#[test]', 'fn kani_concrete_playback_%s_verif() {' % h.name, '    let concrete_vals: std::vec::Vec<std::vec::Vec<u8>> = std::vec![']
+    lines = ['#[test]', 'fn kani_concrete_playback_%s_verif() {' % h.name, '    extern crate std;', '    let concrete_vals: std::vec::Vec<std::vec::Vec<u8>> = std::vec![']
     for v in vals:
         lines.append('        std::vec![%s],' % ', '.join(str(x) for x in v))
     lines += ['    ];', '    kani::concrete_playback_run(concrete_vals, %s);' % h.name, '}']
@@ -376,7 +390,7 @@ def playback_values(w, mod, h, outdir, timeout=900):
             txt = txt.replace('Vec<Vec<u8>>', 'std::vec::Vec<std::vec::Vec<u8>>').replace(' vec![', ' std::vec![')
     return txt, out[-3000:]
 
-def run_playback(w, mod, h, test_text, timeout=900, expect=()):
+def run_playback(w, mod, h, test_text, timeout=900, expect=(), expect_lines=()):
     """Append the generated unit test to the scratch copy of the harness module and execute it natively
     (cargo kani playback): the harness body, i.e. the real functions of /repo, run on the concrete inputs.
     `expect`: descriptions of the failed checks; the native panic must be that assertion (or a panic raised
@@ -402,9 +416,12 @@ def run_playback(w, mod, h, test_text, timeout=900, expect=()):
     where, msg = pm.group(1), pm.group(2)
     if 'concrete_playback' in where or 'concrete' in msg.lower():
         return 'error', ('playback input misaligned: %s %s\n' % (where, msg[:200])) + out[-3000:]
-    exp = [re.sub(r'^"|"$', '', (e or '').strip()) for e in expect]
-    if any(e and e in msg for e in exp):
+    norm = lambda x: re.sub(r'[^A-Za-z0-9]+', '', re.sub(r'&[a-z]+;', '', x or ''))
+    exp = [norm(e) for e in expect]
+    if any(e and e in norm(msg) for e in exp):
         return 'reproduced', ('native panic: %s: %s\n' % (where, msg[:300])) + out[-3000:]
+    if any(re.search(r':%s:\d+$' % re.escape(str(l)), where) for l in expect_lines if l):
+        return 'reproduced', ('native panic at the failed check (same source line): %s: %s\n' % (where, msg[:300])) + out[-3000:]
     if 'verif_mods' not in where:
         return 'reproduced', ('native panic inside /repo code: %s: %s\n' % (where, msg[:300])) + out[-3000:]
     return 'not-reproduced', ('native run stopped at a different harness assertion: %s: %s\n' % (where, msg[:300])) + out[-3000:]
